@@ -11,7 +11,10 @@ IMPORTS = ("From Alator Require Import Model.Num Model.Quirks Model.Exchange Mod
            "Check.Eqb Check.ExchCheck Check.ServerCheck.")
 
 SASPECTS = {0: "kind", 1: "has_next", 2: "tick_out", 3: "fetch", 4: "id", 5: "now", 6: "info", 7: "clock",
-            8: "exch", 9: "others", 10: "last", 11: "keys"}
+            8: "exch", 9: "others", 10: "last", 11: "keys", 12: "dataset_dates", 13: "dataset_rows",
+            14: "dataset_has_next"}
+P_DATES, P_ROWS, P_HASNEXT = 1 << 12, 1 << 13, 1 << 14
+P_ALL = P_DATES | P_ROWS | P_HASNEXT
 S_KIND, S_HASNEXT, S_OUT, S_FETCH, S_ID, S_NOW, S_INFO, S_CLOCK, S_EXCH, S_OTHERS, S_LAST, S_KEYS = [1 << i for i in range(12)]
 SERVER_FLAGS = ["q_init_no_bump", "q_jura_pos_stuck", "q_jura_sell_triggers_inverted"]
 
@@ -36,6 +39,30 @@ def gen_dataset(rng, name, kind, n_dates=None, weird=False, dyadic=True):
             ask = bid + rng.choice([0.0, 0.5, 1.0])
             quotes.append([f2b(bid), f2b(ask), date, s])
         date += rng.choice([1, 1, 2, 86400])
+    style = rng.choice(["date_major", "date_major", "symbol_major", "interleaved", "late_correction"])
+    if style == "symbol_major":
+        # loaded one symbol at a time: every date after the first symbol's is met again, out of order
+        quotes = sorted(quotes, key=lambda q: (syms.index(q[3]), q[2]))
+        if quotes and {q[2] for q in quotes if q[3] == quotes[0][3]} != {q[2] for q in quotes}:
+            # keep first-appearance order of the dates increasing: give the first symbol a quote on every date
+            have = {q[2] for q in quotes if q[3] == quotes[0][3]}
+            extra = [[f2b(rng.choice(exch.GRID)), f2b(rng.choice(exch.GRID) + 1.0), d, quotes[0][3]]
+                     for d in sorted({q[2] for q in quotes} - have)]
+            quotes = sorted([q for q in quotes if q[3] == quotes[0][3]] + extra, key=lambda q: q[2]) + \
+                [q for q in quotes if q[3] != quotes[0][3]]
+    elif style == "interleaved" and len(quotes) > 2:
+        # dates in order, but each date's quotes for the second half of the symbols come after the next date's first half
+        first = [q for q in quotes if syms.index(q[3]) < (len(syms) + 1) // 2]
+        second = [q for q in quotes if syms.index(q[3]) >= (len(syms) + 1) // 2]
+        ds_ = sorted({q[2] for q in quotes})
+        if {q[2] for q in first} == set(ds_):
+            quotes = first + second
+    elif style == "late_correction" and quotes:
+        # a corrected quote for an earlier (date, symbol) arrives last: add_quote overwrites, date list unchanged
+        q = list(rng.choice(quotes))
+        q[0] = f2b(b2f(q[0]) + 1)
+        q[1] = f2b(b2f(q[1]) + 1)
+        quotes.append(q)
     if weird and quotes:
         # re-quote an earlier (date, symbol): add_quote overwrites; and an out-of-order date
         q = list(rng.choice(quotes))
@@ -43,7 +70,7 @@ def gen_dataset(rng, name, kind, n_dates=None, weird=False, dyadic=True):
         quotes.append(q)
         if rng.random() < 0.5:
             quotes.append([f2b(95.0), f2b(96.0), quotes[0][2] - 5, syms[0]])
-    return dict(name=name, quotes=quotes)
+    return dict(name=name, quotes=quotes, style=style)
 
 
 def gen_server_scenario(rng, kind, mode="direct", weird=False, multi=True, n_ops=None, malformed=False,
@@ -111,6 +138,16 @@ def g_row(row):
 def g_dataset(dump):
     return gc("mkDataset", gl([gz(d) for d in dump["dates"]]),
               gl([gt(gz(r["date"]), g_row(r["row"])) for r in dump["rows"]]))
+
+
+def g_pstep(d_sc, dump):
+    calls = gl([gt(gf(q[0]), gf(q[1]), gz(q[2]), gs(q[3])) for q in d_sc["quotes"]])
+    return gc("mkPStep", calls, g_dataset(dump), gb(dump["has_next_at_len"]), gb(dump["has_next_before_len"]))
+
+
+def dataset_terms(sc, tr):
+    dumps = {d["name"]: d["dump"] for d in tr["datasets"]}
+    return [g_pstep(d, dumps[d["name"]]) for d in sc["datasets"] if d["name"] in dumps]
 
 
 def g_app(kind, snap, ds_name):
@@ -241,10 +278,21 @@ def run_servers(wd, scs):
     return trs, defs, terms, steps
 
 
-def make_eval(wd, scs, defs, terms, project):
+IMPORTS_PEN = ("From Alator Require Import Model.Num Model.Exchange Model.Uist Model.Server Model.Penelope "
+               "Check.Eqb Check.ExchCheck Check.ServerCheck Check.PenelopeCheck.")
+DATASET_STEP = 1000000      # pseudo step index of "dataset k of the scenario was loaded"
+
+
+def make_eval(wd, scs, defs, terms, project, pterms=None):
     u_idx = [i for i, sc in enumerate(scs) if sc["kind"] == "uist"]
     j_idx = [i for i, sc in enumerate(scs) if sc["kind"] == "jura"]
     cache = {}
+    pen = []
+    if pterms is not None:
+        # the datasets themselves: Model/Penelope.v's load of the script vs what the real Penelope shows
+        # (independent of every quirk flag)
+        r = eval_steps(wd, "pen", IMPORTS_PEN, pterms, "pstep_mask")
+        pen = [(a, DATASET_STEP + b, m) for a, b, m in r]
 
     def eval_fn(val):
         val = frozenset(val)
@@ -259,7 +307,7 @@ def make_eval(wd, scs, defs, terms, project):
                 r = eval_steps(wd, "sj", IMPORTS, [terms[i] for i in j_idx], "jsstep_mask %s" % q,
                                sc_defs=[defs[i] for i in j_idx])
                 mism += [(j_idx[a], b, m) for a, b, m in r]
-            cache[val] = project(sorted(mism))
+            cache[val] = project(sorted(mism + pen))
         return cache[val]
     return eval_fn
 
@@ -277,6 +325,29 @@ def ds_dump(tr, name):
 
 def rows_of(dump):
     return {r["date"]: r["row"] for r in dump["rows"]}
+
+
+def script_dates(sc, name):
+    """the distinct dates of a dataset's loading script in order of first appearance (what "the dataset's dates"
+    means to the person who loaded it), or None"""
+    for d in sc.get("datasets", []):
+        if d["name"] == name:
+            out = []
+            for q in d["quotes"]:
+                if q[2] not in out:
+                    out.append(q[2])
+            return out
+    return None
+
+
+def dataset_dates(sc, tr, name):
+    """dates a backtest on this dataset must visit: the script's distinct dates when they first appear in
+    increasing order (the property's d1 < ... < dN), else whatever the implementation reports"""
+    dump = ds_dump(tr, name)
+    exp = script_dates(sc, name)
+    if exp is not None and exp == sorted(exp):
+        return exp
+    return dump["dates"] if dump else None
 
 
 def oracle_c07(sc, steps, tr):
@@ -301,11 +372,14 @@ def oracle_c07(sc, steps, tr):
         dump = ds_dump(tr, b_pre["dataset"])
         if dump is None:
             continue
-        dates = dump["dates"]
+        dates = dataset_dates(sc, tr, b_pre["dataset"])
         N = len(dates)
         rows = rows_of(dump)
         kt = ticks.get(bid, 0)
         b_post = find_bt(post, bid)
+        if dump["dates"] != dates:
+            return dict(step=k, what="dataset %s was loaded with the distinct dates %s but the backtest is made to walk %s"
+                        % (b_pre["dataset"], dates, dump["dates"]))
         if o == "tick" and st["some"]:
             kt += 1
             ticks[bid] = kt
@@ -517,9 +591,9 @@ def oracle_c20(sc_direct, tr_direct, tr_http, jura_triggered_required=True):
 # checks
 
 SPROJ = {
-    "C07": S_KIND | S_HASNEXT | S_FETCH | S_NOW | S_CLOCK,
+    "C07": S_KIND | S_HASNEXT | S_FETCH | S_NOW | S_CLOCK | (1 << 12) | (1 << 13) | (1 << 14),
     "C08": S_KIND | S_ID | S_LAST | S_OTHERS | S_KEYS | S_INFO,
-    "C01": S_KIND | S_HASNEXT | S_CLOCK | S_OUT,
+    "C01": S_KIND | S_HASNEXT | S_CLOCK | S_OUT | (1 << 12) | (1 << 13),
     "C20": S_KIND | S_HASNEXT | S_OUT | S_FETCH | S_ID | S_NOW | S_INFO | S_CLOCK | S_EXCH | S_OTHERS | S_LAST | S_KEYS,
 }
 SORACLE = {"C07": oracle_c07, "C08": oracle_c08, "C01": oracle_c01_server}
@@ -568,7 +642,8 @@ def run_property(res, prop, tier, seed, replay, prop_files, extra=None):
 
     def project(mism):
         return [(sc, st, smask_names(m & amask)) for sc, st, m in mism if m & amask]
-    eval_fn = make_eval(wd, scs, defs, terms, project)
+    pterms = [dataset_terms(sc, tr) for sc, tr in zip(scs, trs)]
+    eval_fn = make_eval(wd, scs, defs, terms, project, pterms=pterms)
 
     def run_witness(sc):
         tr = run_harness("server", [sc], wd, tag="w")[0]
